@@ -58,17 +58,26 @@ static const uint8_t* vf_fetch(YR_MEMORY_BLOCK* b)
   return vf_block_data[(tag >> 4) & 1][tag & 3];
 }
 
+/* nblocks_c: CONCRETE number of blocks (VF_NBLOCKS_C), the schedule VF_SCHED is a CONCRETE bitmask over the
+   first/next calls of the scanning pass: every decision of the iterator is concrete, only block sizes/contents
+   are symbolic */
+#ifndef VF_NBLOCKS_C
+#define VF_NBLOCKS_C VF_MAX_BLOCKS
+#endif
+#ifndef VF_SCHED
+#define VF_SCHED 0
+#endif
 static YR_MEMORY_BLOCK* vf_deliver(YR_MEMORY_BLOCK_ITERATOR* it)
 {
   vf_iter_ctx* c = (vf_iter_ctx*) it->context;
   c->calls++;
   it->last_error = ERROR_SUCCESS;
-  if (c->pos >= c->nblocks)
+  if (c->pos >= VF_NBLOCKS_C)
   {
     c->notready_enabled = 0; /* a full iteration completed: later iterations never answer not-ready (docs/capi.rst) */
     return NULL;
   }
-  if (c->notready_enabled && c->notready_count < VF_MAX_NOTREADY && vf_bool())
+  if (c->notready_enabled && ((VF_SCHED >> (c->calls - 1)) & 1))
   {
     c->notready_count++;
     it->last_error = ERROR_BLOCK_NOT_READY;
